@@ -17,6 +17,8 @@ func c03Path() *BGPPath {
 			EBGP: ndBool(), Origin: ndU8(),
 		},
 		ASPathLen: ndU16(),
+		// a populated AS_PATH (first ASN = neighbouring AS, symbolic): the decision must not depend on it beyond ASPathLen
+		ASPath: &types.ASPath{{Type: types.ASSequence, ASNs: []uint32{ndU32(), ndU32()}}},
 	}
 	switch vChoice(5) { // 0: no CLUSTER_LIST attribute (nil); 1..4: list of length 0..3
 	case 1:
